@@ -7,6 +7,7 @@ of the child's run loop (graceful terminate landing there, SIGKILL/SIGTERM there
 blocked sending a big result) and hands the projected (scn, obs) records to TLC (LifeJudge),
 which evaluates the same operators (LifeProps)."""
 import json
+from concurrent.futures import ThreadPoolExecutor
 import multiprocessing as mp
 import os
 import random
@@ -345,6 +346,8 @@ def run(prop, tier, replay=None):
     ev.cov['conformance_unmapped_where'] = sorted(set(UNMAPPED))[:12]
     ev.cov['conformance_drift'] = len(dr)
     drift = dr[:5] + (['... %d more' % (len(dr) - 5)] if len(dr) > 5 else []) + unrepro[:5]
+    if prop == 'C01' or tier == 'thorough':
+        trace_validation(results, ev, drift)
     ev.cov['violations_not_reproduced'] = len(unrepro)
     ev.cov['traces_validated_against_impl'] = checked - len(dr)
     ev.cov['evaluations'] = len(records)
@@ -485,6 +488,131 @@ def real_triple(r):
         seen = 'ErrNone'
     return (seen, o['us_end'], o['stream']['end'])
 
+
+
+# ----------------------------------------------------------------------------------------------
+# code -> spec: control-flow traces of the real child run loops against OneShot.tla (spec/OneShotTrace.tla)
+# ----------------------------------------------------------------------------------------------
+_TR = {}
+
+
+def trace_regions(kind):
+    """line -> block of the run loop (AST of the current tree); `except` header lines and `try:` lines carry no token"""
+    import ast
+    from ..common import REPO
+    if kind in _TR:
+        return _TR[kind]
+    fn = {'thread': 'thread.py', 'process': 'process.py', 'remote': 'remote.py'}[kind]
+    name = '_run_backend' if kind == 'remote' else '_run'
+    tree = ast.parse(open(os.path.join(REPO, 'pyworkers', fn)).read())
+    f = [n for n in ast.walk(tree) if isinstance(n, ast.FunctionDef) and n.name == name][0]
+    reg = {}
+
+    def span(nodes, tag):
+        for n in nodes:
+            for ln in range(n.lineno, n.end_lineno + 1):
+                reg[ln] = tag
+
+    def one(t, pfx):
+        span(t.body, 'try')
+        for h in t.handlers:
+            span(h.body, pfx + 'handler')
+            reg[h.lineno] = 'header'
+        span(t.finalbody, pfx + 'finally')
+    outer = [n for n in f.body if isinstance(n, ast.Try)][0]
+    if kind == 'remote':
+        one(outer, 'o')
+        inner = [n for n in outer.body if isinstance(n, ast.Try)][0]
+        one(inner, '')
+    else:
+        one(outer, '')
+    _TR[kind] = (reg, fn, name)
+    return _TR[kind]
+
+
+def trace_tokens(r):
+    """token sequence of one real life, or None if this life is not a trace of the child's run loop"""
+    c, s = r.get('case') or {}, r['scn']
+    ending = {'slow': 'ret', 'slowfin': 'ret', 'linger': 'ret', 'unreb2': 'unreb'}.get(c.get('ending'), c.get('ending'))
+    if c.get('fault') not in ('none', 'pause', 'sigkill') or ending not in ('ret', 'exc', 'bexc', 'unreb', 'big') or not r.get('events'):
+        return None
+    if c.get('restart_chain') or c.get('in_context') or c.get('granularity') == 'opcode':
+        return None
+    reg, afile, an = trace_regions(c['kind'])
+    landed = s.get('landed') == 'T' and c.get('fault') in ('pause', 'sigkill')
+    at = (r.get('where') or {}).get('n') if landed else None
+    if landed and not at:
+        return None
+    toks, prev_anchor, block = [], False, None
+    for i, (f, fn, ln, _tg) in enumerate(r['events'], 1):
+        if at == i:
+            toks.append('LAND' if c['fault'] == 'pause' else 'KILL')
+            break
+        if f == afile and fn == an:
+            b = reg.get(ln)
+            if b in ('handler', 'finally', 'ohandler', 'ofinally') and b != block:
+                toks.append(b)
+            if b and b != 'header':
+                block = b
+            prev_anchor = True
+        else:
+            if prev_anchor and fn == 'do_work':
+                toks.append('work')
+            prev_anchor = False
+    return {'kind': c['kind'], 'pers': bool(c.get('persistent')), 'ending': ending, 'items': c.get('items', 0) if c.get('persistent') else 0,
+            'fault': c['fault'] if landed else 'none', 'toks': toks}
+
+
+TRACE_CFG = '''INIT TInit
+NEXT TNext
+CONSTANTS
+  Kind = "%s"
+  Persistent = %s
+  Ending = "%s"
+  Items = %d
+  MaxTerm = 1
+  MaxKill = %d
+  Fixed = TRUE
+INVARIANT TAccept
+CHECK_DEADLOCK FALSE
+'''
+
+
+def trace_validation(results, ev, drift):
+    from ..common import sub_scratch
+    groups = {}
+    for r in results:
+        t = trace_tokens(r)
+        if t is not None:
+            groups.setdefault((t['kind'], t['pers'], t['ending'], t['items']), []).append((r, t))
+    total = acc = 0
+
+    def one(item):
+        (kind, pers, ending, items), lst = item
+        d = sub_scratch('ostrace')
+        tf = os.path.join(d, 'tr_%s_%s_%s_%d.json' % (kind, pers, ending, items))
+        json.dump([{'id': 't%d' % i, 'fault': t['fault'], 'toks': t['toks']} for i, (_r, t) in enumerate(lst)], open(tf, 'w'))
+        rt = tlc.run('OneShotTrace', cfg_text=TRACE_CFG % (kind, 'TRUE' if pers else 'FALSE', ending, items, 0 if kind == 'thread' else 1),
+                     workers=2, env={'TRACE_FILE': tf}, must_complete=False, timeout=900, name='ostrace')
+        return item, rt
+    with ThreadPoolExecutor(6) as ex:
+        outs = list(ex.map(one, sorted(groups.items(), key=lambda kv: str(kv[0]))))
+    for ((kind, pers, ending, items), lst), rt in outs:
+        ev.add_tlc('trace validation: %d control-flow traces of real %s%s workers (ending %s) against OneShot.tla'
+                   % (len(lst), 'persistent ' if pers else '', kind, ending), rt, role='trace')
+        if rt.error:
+            raise MachineryError('OneShotTrace failed for %s: %s' % ((kind, pers, ending, items), rt.error))
+        ok = set(x[0] for x in rt.tags.get('ACCEPT', []))
+        for i, (r, t) in enumerate(lst):
+            total += 1
+            if 't%d' % i in ok:
+                acc += 1
+            elif len([d_ for d_ in drift if d_.startswith('control-flow')]) < 4:
+                drift.append('control-flow trace of a real %s%s worker (ending %s, fault %s) is not a behaviour of OneShot.tla: %s'
+                             % ('persistent ' if pers else '', kind, ending, t['fault'], t['toks']))
+    ev.cov['control_flow_traces'] = total
+    ev.cov['control_flow_traces_accepted'] = acc
+    return total, acc
 
 UNMAPPED = []
 
